@@ -2,7 +2,7 @@
    Print Assumptions.  hwf = every reference stored in a heap cell points to an allocated cell of the right kind;
    swf = the stream record points to an indexer and a thermal condition; both are invariants of every reachable
    state (copy_lemma, mut_local, link_lemma, unlink_lemma, flow_proxy_lemma re-establish them). *)
-From V Require Import Common.NumFacts C13.Model C13.Proofs C13.Hist C13.CopyLike C13.Reduce.
+From V Require Import Common.NumFacts C13.Model C13.Proofs C13.Hist C13.CopyLike C13.Reduce C13.ProofsDeep.
 Local Open Scope nat_scope.
 
 (* a copy has the same flows, phase(s), T and P; the original is unchanged; nothing is shared *)
@@ -189,8 +189,10 @@ Theorem C13_copy_like_eq_partial : forall pk h a b ka pba da kb pbb db h' a' e,
 Proof. exact copy_like_ss. Qed.
 Print Assumptions C13_copy_like_eq_partial.
 
-(* reduce (= from_data o __reduce__ through __init__), full statement: the observable state incl. price,
-   characterization factors and a given ID survives (a one-phase MultiStream comes back as a Stream) *)
+(* reduce (= from_data o __reduce__ through __init__): the observable state incl. price, characterization factors and a
+   given ID survives (a one-phase MultiStream comes back as a Stream).  This early formulation lacks the reachable-state
+   hypotheses (sorted phase tuple, thermo = package of the indexer); the statement is PROVED with them as
+   C13_reduce_roundtrip at the end of this file (and for upper-case phases as C13_reduce_roundtrip_multiphase_any_case) *)
 Definition C13_reduce_roundtrip_statement : Prop :=
   forall pk h s h' n, hwf h -> swf h s -> plain h s -> sid_ s <> IdNone -> reduce pk h s = Ok (h', n) ->
     obs_plus h' n = (let '(m, phs, rows, T, P, pr, c, i) := obs_plus h s in
@@ -324,3 +326,87 @@ Example C13_ex_copy_like_kinds :
   o_multi (observe (hp st1) (nth 0 (ss st1) dflt) []) = true /\
   o_rows (observe (hp st1) (nth 0 (ss st1) dflt) []) = [[0%Q; 0%Q; 0%Q]; [1%Q; 1%Q; 0%Q]].
 Proof. vm_compute. repeat split; reflexivity. Qed.
+
+(* ---------- deepening round ---------- *)
+(* reduce (= from_data o __reduce__ through __init__) for EVERY kind of stream: single-phase Stream, MultiStream holding
+   one phase (comes back as a Stream) and MultiStream with two or more phases (incl. empty phases): the whole observable
+   state -- flows of every phase, phases, T, P, price, characterization factors, a given ID -- is reproduced *)
+Theorem C13_reduce_roundtrip : forall pk h s h' n,
+  stream_ok h s -> thermo s = stream_pkg h s -> sid_ s <> IdNone -> reduce pk h s = Ok (h', n) ->
+  obs_plus h' n = reduce_expect (obs_plus h s).
+Proof. exact reduce_all. Qed.
+Print Assumptions C13_reduce_roundtrip.
+
+(* the multi-phase case on its own *)
+Theorem C13_reduce_roundtrip_multiphase : forall pk h s k phs d rows T P h' n,
+  nth_error h (imol s) = Some (CIdxM k phs d) -> nth_error h d = Some (CArr rows) ->
+  nth_error h (tc s) = Some (CTC T P) -> good phs -> 2 <= length phs -> length rows = length phs ->
+  thermo s = k -> sid_ s <> IdNone -> reduce pk h s = Ok (h', n) ->
+  obs_plus h' n = (true, phs, map (rdvec h) rows, T, P, price s, cf s, sid_ s).
+Proof. exact reduce_multi. Qed.
+Print Assumptions C13_reduce_roundtrip_multiphase.
+
+(* ... and for ANY sorted tuple of valid phases, the upper-case phases 'L', 'S' included *)
+Theorem C13_reduce_roundtrip_multiphase_any_case : forall pk h s k phs d rows T P h' n,
+  nth_error h (imol s) = Some (CIdxM k phs d) -> nth_error h d = Some (CArr rows) ->
+  nth_error h (tc s) = Some (CTC T P) -> sinc phs -> forallb valid_phase phs = true -> 2 <= length phs ->
+  length rows = length phs -> thermo s = k -> sid_ s <> IdNone -> reduce pk h s = Ok (h', n) ->
+  obs_plus h' n = (true, phs, map (rdvec h) rows, T, P, price s, cf s, sid_ s).
+Proof. exact reduce_multi_any. Qed.
+Print Assumptions C13_reduce_roundtrip_multiphase_any_case.
+
+Definition exL : state :=
+  fst (run PK MWS init [ONewM (IdName 1) 0 [0; 3] [(0, [1%Q; 0%Q; 2%Q]); (3, [0%Q; 4%Q; 0%Q])] (300%Q) (101325%Q) 0%Q []]).
+Example C13_ex_reduce_upper_case :
+  sinc [0; 3] /\ forallb valid_phase [0; 3] = true /\
+  nth_error (hp exL) (imol (nth 0 (ss exL) dflt)) = Some (CIdxM 0 [0; 3] 3) /\
+  exists h' n, reduce PK (hp exL) (nth 0 (ss exL) dflt) = Ok (h', n).
+Proof.
+  split; [simpl; split; [intros y [<-|[]]; lia|split; [intros y []|exact I]]|]. split; [reflexivity|].
+  split; [vm_compute; reflexivity|eexists; eexists; vm_compute; reflexivity].
+Qed.
+
+Example C13_ex_reduce_roundtrip :
+  stream_ok (hp ex_state) (ex_s 1) /\ thermo (ex_s 1) = stream_pkg (hp ex_state) (ex_s 1) /\ sid_ (ex_s 1) <> IdNone /\
+  (exists h' n, reduce PK (hp ex_state) (ex_s 1) = Ok (h', n)) /\
+  stream_ok (hp ex_state) (ex_s 0) /\ (exists h' n, reduce PK (hp ex_state) (ex_s 0) = Ok (h', n)).
+Proof.
+  destruct C13_ex_stream_ok as [A B].
+  split; [exact B|]. split; [vm_compute; reflexivity|]. split; [vm_compute; discriminate|].
+  split; [eexists; eexists; vm_compute; reflexivity|]. split; [exact A|eexists; eexists; vm_compute; reflexivity].
+Qed.
+
+(* the view dict over WHOLE histories of single-phase Streams (every operation of the model except the MultiStream
+   constructor and the phases setter): the invariant SW holds in every reachable state ... *)
+Theorem C13_stream_histories_invariant : forall pk mw ops, forallb sop ops = true -> SW (fst (run pk mw init ops)).
+Proof. intros pk mw ops F. apply SW_run; auto. apply SW_init. Qed.
+Print Assumptions C13_stream_histories_invariant.
+
+(* ... hence a cached mass view wraps exactly the data vector and the Phase object of every indexer holding its dict *)
+Theorem C13_view_bound_over_histories : forall pk mw ops st r c v k pb d,
+  forallb sop ops = true -> st = fst (run pk mw init ops) ->
+  lookup r (cmap st) = Some c -> nth c (caches st) None = Some v -> nth_error (hp st) r = Some (CIdxC k pb d) ->
+  v = mkview [d] (Some pb) [].
+Proof. exact view_bound_over_histories. Qed.
+Print Assumptions C13_view_bound_over_histories.
+
+(* ... and s.imass of every stream of the store, cached or not, wraps the stream's own current data vector *)
+Theorem C13_imass_wraps_own_rows : forall pk mw ops st i s,
+  forallb sop ops = true -> st = fst (run pk mw init ops) -> nth_error (ss st) i = Some s ->
+  snd (by_mass st s) = data_rows (hp st) s.
+Proof. exact imass_wraps_own_rows. Qed.
+Print Assumptions C13_imass_wraps_own_rows.
+
+Definition view_hist : list op :=
+  [ONewS (IdName 1) 0 3 [1%Q; 0%Q; 2%Q] (300%Q) (101325%Q) 0%Q [];
+   ONewS (IdName 2) 0 2 [0%Q; 4%Q; 0%Q] (350%Q) (101325%Q) 0%Q [];
+   OLink 1 0 true true true; OReadMass 1; OSetMass 0 0 1 (64%Q); OFlowProxy 0; OReadMass 2; OUnlink 0; OReadMass 0; OCopyLike 2 1].
+Example C13_ex_view_history :
+  forallb sop view_hist = true /\
+  (let st := fst (run PK MWS init view_hist) in
+   exists r c v, lookup r (cmap st) = Some c /\ nth c (caches st) None = Some v /\
+                 exists k pb d, nth_error (hp st) r = Some (CIdxC k pb d)).
+Proof.
+  split; [reflexivity|]. vm_compute. exists 3. eexists; eexists. split; [reflexivity|]. split; [reflexivity|].
+  eexists; eexists; eexists; reflexivity.
+Qed.
